@@ -1,9 +1,13 @@
 import Lean.Data.Json
 import Eliot.Model.Parse
+import Eliot.Model.ParseFlat
 /-! Line-protocol driver for the parser model (C09, also used by C01/C06/C11/C17).
 in : {"msgs":[{"uuid","level","atype"?,"status"?,"body"}...]}
-out: {"steps":[ {"y":[task...],"i":{uuid:task}} | {"err":"..."} ...], "final":[task...] | null}
-Parsing stops at the first error, like the Python generator. -/
+out: {"steps":[ {"y":[task...],"i":{uuid:task}} | {"err":"..."} ...], "final":[task...] | null,
+      "fsteps":[ {"y":[ftask...],"i":{uuid:ftask}} | {"err":"..."} ...]}
+Parsing stops at the first error, like the Python generator.  `fsteps` is the same run of the code-shaped
+flat-map model (`Model/ParseFlat.lean`): every `_nodes` entry and `_completed` of every task, compared by the
+harness with the real `Task._nodes` / `_completed` entry by entry. -/
 open Lean PM
 
 def parseMsg (j : Json) : Except String PMsg := do
@@ -33,6 +37,37 @@ def taskJ (t : Task) : Json :=
   Json.mkObj [("root", match t.root with | none => Json.null | some n => nodeJ n),
               ("completed", toJson (sortLevels t.completed))]
 
+def dedupLevels (ls : List Level) : List Level :=
+  ls.foldl (fun acc l => if acc.contains l then acc else acc ++ [l]) []
+
+def ftaskJ (t : FTask) : Json :=
+  let lvls := sortLevels (dedupLevels (t.nodes.map (·.1)))
+  Json.mkObj [("nodes", Json.arr (lvls.filterMap fun l => (t.get l).map fun n => Json.arr #[toJson l, nodeJ n]).toArray),
+              ("completed", toJson (sortLevels (dedupLevels t.completed)))]
+
+/-- `Parser.add` over the flat tasks: same routing and discarding as `PM.Parser.add` -/
+def fparserAdd (p : List (String × FTask)) (m : PMsg) : Except Err (List (String × FTask) × List (String × FTask)) := do
+  let cur := (p.lookup m.uuid).getD {}
+  let t ← cur.add m
+  let rest := p.filter (fun e => e.1 != m.uuid)
+  if t.isComplete then pure ([(m.uuid, t)], rest) else pure ([], (m.uuid, t) :: rest)
+
+def runFlat (msgs : List PMsg) : Json := Id.run do
+  let mut p : List (String × FTask) := []
+  let mut steps : Array Json := #[]
+  let mut failed := false
+  for m in msgs do
+    if failed then break
+    match fparserAdd p m with
+    | .ok (done, p') =>
+      p := p'
+      steps := steps.push (Json.mkObj [("y", Json.arr (done.map fun e => ftaskJ e.2).toArray),
+                                       ("i", Json.mkObj (p.map fun (u, t) => (u, ftaskJ t)))])
+    | .error e =>
+      steps := steps.push (Json.mkObj [("err", toJson (reprStr e))])
+      failed := true
+  return Json.arr steps
+
 def runCase (msgs : List PMsg) : Json := Id.run do
   let mut p : Parser := []
   let mut steps : Array Json := #[]
@@ -49,7 +84,7 @@ def runCase (msgs : List PMsg) : Json := Id.run do
       failed := true
   let final : Json := if failed then Json.null else
     Json.mkObj (p.map fun (u, t) => (u, taskJ t))
-  return Json.mkObj [("steps", Json.arr steps), ("final", final)]
+  return Json.mkObj [("steps", Json.arr steps), ("final", final), ("fsteps", runFlat msgs)]
 
 partial def loop (h : IO.FS.Stream) : IO Unit := do
   let line ← h.getLine
